@@ -27,6 +27,14 @@ class ProgGen:
         r = self.rng
         oid = ("u%d" if r.random() < 0.8 else "l%d") % self.nid
         self.nid += 1
+        used = self.__dict__.setdefault("used", [])
+        if used and r.random() < 0.06:
+            # the same 128 bits in the OTHER id format: a different order id
+            tw = r.choice(used)
+            tw = ("l" if tw[0] == "u" else "u") + tw[1:]
+            if tw not in used:
+                oid = tw
+        used.append(oid)
         k = r.choice(self.kinds)
         lo = 1 if positive else 0
         v = r.choice([lo, 1, 2, 3, 5, 8, 10, 20])
